@@ -61,6 +61,7 @@ func monoKey(vars []AtomID, exps []int) string {
 func newPoly() *Poly { return &Poly{terms: map[string]*term{}} }
 
 func (p *Poly) addTerm(vars []AtomID, exps []int, c *big.Rat) {
+	workUnits++
 	if c.Sign() == 0 {
 		return
 	}
@@ -82,6 +83,11 @@ func polyConst(c *big.Rat) *Poly {
 }
 
 func (p *Poly) isZero() bool { return len(p.terms) == 0 }
+
+// workUnits: a deterministic clock (polynomial terms processed). The bounded
+// searches of the analyser are limited in these units, not in wall-clock time,
+// so that a verdict never depends on the load of the machine.
+var workUnits int64
 
 func (p *Poly) add(q *Poly, sign int) *Poly {
 	r := newPoly()
